@@ -8,7 +8,8 @@
 (* module (legalfloor.py, model.py) relies on:                             *)
 (*   build     t op u builds a tree for op in + - * / ** and sqrt(t), with *)
 (*             a tree, a Python int/float or a GEKKO variable as the other *)
-(*             operand, on either side for numbers                         *)
+(*             operand, on either side for numbers; the exponent of a      *)
+(*             power is a constant natural number on the right             *)
 (*   eval      evaluate() is the arithmetic value of the term under the    *)
 (*             current values of its variables (1e-9 relative)             *)
 (*   gekko     get_gekko_expression() denotes the same function (the GEKKO *)
@@ -122,7 +123,8 @@ Defined(p, v, k) ==
   ELSE IF nd.op = "srt" THEN Defined(p, v, nd.l) /\ SqOK(Value(p, v, nd.l))
   ELSE /\ Defined(p, v, nd.l) /\ Defined(p, v, nd.r)
        /\ (nd.op = "div" => Value(p, v, nd.r)[1] # 0)
-       /\ (nd.op = "pow" => LET e == Value(p, v, nd.r) IN e[2] = 1 /\ e[1] \in 0..3 /\ PowOK(Value(p, v, nd.l), e[1]))
+       /\ (nd.op = "pow" => /\ p[nd.r].op \in {"cst", "scal"}            \* a constant exponent ...
+                             /\ LET e == Value(p, v, nd.r) IN e[2] = 1 /\ e[1] \in 0..3 /\ PowOK(Value(p, v, nd.l), e[1]))
        /\ Fits(Value(p, v, k))
 
 \* variables below node k: in order of first occurrence, and as a set (two independent definitions)
@@ -185,6 +187,7 @@ NumGekkoEqs(o) == IF o.c = "EQ" /\ o.h = 0 THEN 2 ELSE 1
 (***************************************************************************)
 (* Catalogues for the configuration files (a .cfg cannot write tuples)     *)
 (***************************************************************************)
+ConstsQ == {<<3, 1, 1>>}
 ConstsA == {<<3, 1, 1>>, <<1, 4, 1>>}
 ConstsB == {<<3, 1, 1>>, <<1, 4, 1>>, <<2, 1, 2>>}          \* the last one lives in GEKKO model 2
 ConstsH == {<<2, 1, 2>>}
@@ -192,6 +195,7 @@ ScalsA == {<<2, 1, 1>>, <<-1, 2, 0>>}
 ScalsB == {<<2, 1, 1>>, <<-1, 2, 0>>, <<0, 1, 1>>}
 ScalsH == {<<2, 1, 1>>}
 ValsA == {<<0, 1>>, <<9, 4>>}
+ValsH == {<<9, 4>>}
 ValsB == {<<0, 1>>, <<9, 4>>, <<-3, 1>>}
 InitsA == {<<<<4, 1>>, <<1, 4>>, <<3, 1>>>>}
 InitsB == {<<<<4, 1>>, <<1, 4>>, <<3, 1>>>>, <<<<-2, 1>>, <<0, 1>>, <<1, 1>>>>}
@@ -199,6 +203,7 @@ EpsA == {<<0, 1>>, <<1, 4>>, <<1, 10000000>>}
 EpsQ == {<<0, 1>>, <<1, 4>>}
 AllBin == {"add", "sub", "mul", "div", "pow"}
 TwoBin == {"add", "mul"}
+OneBin == {"add"}
 
 (***************************************************************************)
 (* State machine                                                           *)
